@@ -1,0 +1,28 @@
+//go:build verif
+
+package seat_manager
+
+// Hooks for the deterministic-simulation harness (build tag "verif").
+// With the tag off these functions are empty (verif_hooks_off.go) and the
+// shipped behaviour is unchanged.
+
+// VerifYield, when set, is called at the yield points inside the seat
+// manager so that a simulator can decide which goroutine proceeds.
+var VerifYield func(label string)
+
+// VerifOrder, when set, may permute the two lists returned by
+// getAvailableSeats in place (their order otherwise comes from Go's
+// randomised map iteration).
+var VerifOrder func(seats []int, alternateSeats []int)
+
+func verifYield(label string) {
+	if f := VerifYield; f != nil {
+		f(label)
+	}
+}
+
+func verifOrder(seats []int, alternateSeats []int) {
+	if f := VerifOrder; f != nil {
+		f(seats, alternateSeats)
+	}
+}
